@@ -63,6 +63,14 @@ def abstract_machine(rng, with_any=False):
         tgt = rng.choice(ids)
         for s in nonfinal:
             d["trans"].append({"src": s, "tgt": tgt, "evs": ["anyev"], "internal": False, "from_any": True})
+        # the same guards (cond and unless, by ONE name each) on all of them: from_.any(cond=..., unless=...)
+        if rng.random() < 0.7:
+            first = len(d["trans"]) - len(nonfinal) + 1
+            for n in range(rng.randint(1, 2)):
+                g, exp = rng.choice(gen.GNAMES), rng.random() < 0.5
+                for j in range(first, len(d["trans"]) + 1):
+                    d["cbs"].append({"okind": "T", "owner": "", "tix": j, "group": "cond", "prov": "sm", "coro": False, "yields": 0,
+                                     "gname": g, "expected": exp, "ret": "none", "style": "name", "name": f"any_guard_{n + 1}"})
     harness.normalize_def(d)
     # guard labels per transition, in the order cond then unless
     for j, t in enumerate(d["trans"], start=1):
@@ -189,14 +197,14 @@ def render(rng, d, style):
     if anys:
         if style == "any":
             h = newh()
-            body.append({"op": "any", "h": h, "tgt": anys[0]["tgt"], "evs": [], "guards": []})
+            body.append({"op": "any", "h": h, "tgt": anys[0]["tgt"], "evs": [], "guards": list(anys[0]["guards"])})
             body.append({"op": "event", "name": "anyev", "h": h, "style": "attr"})
         else:
             hs = []
             for t in anys:
                 h = newh()
                 body.append({"op": "to", "h": h, "src": t["src"], "tgts": [t["tgt"]], "evs": ["anyev"] if not by_attr else [],
-                             "internal": False, "guards": [], "evstyle": "string", "itself": False})
+                             "internal": False, "guards": list(t["guards"]), "evstyle": "string", "itself": False})
                 hs.append(h)
             if by_attr:
                 acc = hs[0]
@@ -233,11 +241,24 @@ def execute(body, d, rt, split=None):
     from statemachine.states import States
 
     funcs = {}
+    shared = {}
     for c, cb in enumerate(d["cbs"], start=1):
         method, function = harness.make_callback(rt, c, cb)
         harness._class_counter[0] += 1
         method.__qualname__ = f"R{harness._class_counter[0]}.{cb['name']}"
         funcs[cb["name"]] = method
+        shared.setdefault(cb["name"], []).append((cb, method))
+    for name, lst in shared.items():
+        if len(lst) > 1:
+            # ONE method guarding several transitions (the guards of from_.any(...)): which abstract callback an invocation
+            # is follows from the source state it is called for
+            table = {d["trans"][cb["tix"] - 1]["src"]: m for cb, m in lst}
+
+            def by_source(self, *, event=None, source=None, target=None, state=None, machine=None, _t=table):
+                return _t[source.id](self, event=event, source=source, target=target, state=state, machine=machine)
+            by_source.__name__ = name
+            by_source.__qualname__ = lst[0][1].__qualname__
+            funcs[name] = by_source
 
     def guards_kw(gs):
         kw = {}
